@@ -26,7 +26,12 @@ already set; Enum / str / date inputs kept in memory or on disk, cloned, and rea
 formula comparing them with an Enum member, a string and a date on every side; household
 values read through projectors (person.household(...), household.first_person(...), chained
 person.household.sum / nb_persons / first_person) on the original before the clone and on every
-side after the group input has diverged.
+side after the group input has diverged; float inputs with -0.0 / 0.0 / inf / -inf / NaN, stored for
+consecutive periods in arrays that are equal as numbers and differ in the sign of a zero (stored
+values are compared with the sign of zero kept, NaN equal to NaN) and read through a sign-sensitive
+formula; scale cases with one household of 256..400 members beside small ones, where the original
+computes value_nth_person / max / min / first person values (which builds the lazy index arrays)
+before it is cloned and every side recomputes them on diverged member values.
 """
 from __future__ import annotations
 
@@ -67,7 +72,11 @@ RULE = ("random rule systems (3-6 variables of coq/model/Engine.v's expression l
         "deletions, calculations, an optional second clone, and a final read of the formula on every side; a "
         "household input read by person- and household-level formulas through projectors (person.household(...), "
         "household.first_person(...), chains), evaluated on the original before the clone and on every side after "
-        "each side got its own value of the household input")
+        "each side got its own value of the household input; a quarter of these cases draws floats from "
+        "{0.0, -0.0, inf, -inf, NaN, +-1.5} and stores arrays differing only in the sign of a zero for consecutive "
+        "months (stored values compared bit-faithfully for zeros, NaN = NaN); one case in twenty has a household "
+        "of 256..400 members beside small ones, with max / min / value_nth_person / first-person values computed "
+        "before the clone and recomputed on every side")
 TRUSTED = ["harness/rules.py: compiler from rule-system terms to real Variable subclasses (formulas call the public API)",
            "harness/c13.py: reading of Holder/Simulation attributes (_memory_storage, _disk_storage, invalidated_caches, "
            "tracer, population back-pointers) for the identity part of the oracle"]
@@ -289,6 +298,8 @@ def structure(sim):
             d["members_entity_id"] = [int(x) for x in pop.members_entity_id]
             d["members_role"] = [r.key for r in pop.members_role]
             d["members_position"] = [int(x) for x in pop.members_position]
+            omap = pop._ordered_members_map      # lazily built; copied by clone when it exists
+            d["ordered_members_map"] = None if omap is None else [int(x) for x in omap]
         out[key] = d
     return out
 
@@ -602,12 +613,42 @@ def _typed_variables(_Person, _Household):
                     + person.household.first_person("rent", period)
                     + person.household.sum(person.household.members("rent", period)))
 
-    return [income, salary, bonus, hours, rent, housing, name, birth, benefit, total, hrent, rent_share, hsalary, peers]
+    # sign- and special-value-sensitive reading of a stored float
+    class signed(_Variable):
+        value_type = float
+        entity = _Person
+        definition_period = _periods.DateUnit.MONTH
+
+        def formula(person, period):
+            x = person("rent", period)
+            return numpy.copysign(1, x) + 10 * numpy.isnan(x) + 100 * numpy.isinf(x)
+
+    # position-dependent group primitives: they use the lazily built members_position / ordered_members_map
+    class hmax(_Variable):
+        value_type = float
+        entity = _Household
+        definition_period = _periods.DateUnit.MONTH
+
+        def formula(household, period):
+            return household.max(household.members("rent", period))
+
+    class hnth(_Variable):
+        value_type = float
+        entity = _Household
+        definition_period = _periods.DateUnit.MONTH
+
+        def formula(household, period):
+            rent = household.members("rent", period)
+            return (household.value_nth_person(1, rent, default=-1) + household.value_from_first_person(rent)
+                    + household.min(rent))
+
+    return [income, salary, bonus, hours, rent, housing, name, birth, benefit, total, hrent, rent_share, hsalary, peers,
+            signed, hmax, hnth]
 
 
 TYPED_NAMES = ["income", "salary", "bonus", "hours", "rent", "housing", "name", "birth", "benefit", "total",
-               "hrent", "rent_share", "hsalary", "peers"]
-TYPED_GROUP = {"hrent", "hsalary"}
+               "hrent", "rent_share", "hsalary", "peers", "signed", "hmax", "hnth"]
+TYPED_GROUP = {"hrent", "hsalary", "hmax", "hnth"}
 
 
 def canon(a):
@@ -621,7 +662,8 @@ def canon(a):
         a = a.reshape(1)
     k = a.dtype.kind
     if k == "f":
-        return ["f", [float(x) for x in a.tolist()]]
+        # text form that keeps the sign of a zero and makes NaN comparable
+        return ["f", [repr(float(x)) for x in a.tolist()]]
     if k in "iu":
         return ["i", [int(x) for x in a.tolist()]]
     if k == "b":
@@ -701,9 +743,11 @@ class TypedDriver:
         raise AssertionError(req)
 
 
+SPECIAL_FLOATS = [0.0, -0.0, -0.0, 0.0, float("inf"), float("-inf"), float("nan"), 1.5, -1.5]
+_SPECIAL = [0.0]        # probability that a generated float is a special value (set per case)
+
+
 def _typed_value(rng, name, n):
-    if name == "hrent":
-        return [float(rng.choice([0, 400, 900, 1200, 2400])) for _ in range(n)]
     if name == "housing":
         return [rng.choice(["owner", "tenant", "tenant", "free"]) for _ in range(n)]
     if name == "name":
@@ -712,7 +756,8 @@ def _typed_value(rng, name, n):
         return [rng.choice(["1980-05-17", "1995-01-01", "1989-12-31", "1990-01-01"]) for _ in range(n)]
     if name == "hours":
         return [rng.choice([0, 120, 1440, 1800]) for _ in range(n)]
-    return [float(rng.choice([0, 600, 1200, 12000, 24000, 36000.5])) for _ in range(n)]
+    pool = [0, 400, 900, 1200, 2400] if name == "hrent" else [0, 600, 1200, 12000, 24000, 36000.5]
+    return [rng.choice(SPECIAL_FLOATS) if rng.random() < _SPECIAL[0] else float(rng.choice(pool)) for _ in range(n)]
 
 
 def _typed_request(rng, n, year, g=1):
@@ -723,7 +768,7 @@ def _typed_request(rng, n, year, g=1):
         if q < 0.4:
             return ["set", "hrent", month(), _typed_value(rng, "hrent", g)]
         if q < 0.8:
-            return ["calc", rng.choice(["rent_share", "rent_share", "peers", "hsalary"]), month()]
+            return ["calc", rng.choice(["rent_share", "rent_share", "peers", "hsalary", "hmax", "hnth", "signed"]), month()]
         return ["delete", rng.choice(["rent_share", "peers", "hsalary", "hrent"]), rng.choice([None, month()])]
     r = rng.random()
     if r < 0.22:
@@ -758,7 +803,57 @@ def _typed_request(rng, n, year, g=1):
     return ["delete", name, rng.choice([None, str(year), month()])]
 
 
+def _scale_case(rng, k):
+    """one household of 256..400 members beside small ones; the original computes position-dependent
+    group values (which builds members_position / ordered_members_map) BEFORE it is cloned; then both
+    sides get different member values and recompute"""
+    big = rng.randint(256, 400)
+    small = rng.randint(1, 3)
+    ids = [0] * big + [1] * small + ([2] if rng.random() < 0.5 else [])
+    if rng.random() < 0.7:
+        rng.shuffle(ids)
+    if rng.random() < 0.5:
+        ids = [{0: 1, 1: 0}.get(i, i) for i in ids]          # the big household is not always the first
+    n, g = len(ids), max(ids) + 1
+    year = 2018
+    rents = lambda: [float(rng.randint(1, 5000)) for _ in range(n)]  # noqa: E731
+    ops = [["on", 0, ["set", "rent", f"{year}-01", rents()]],
+           ["on", 0, ["set", "hrent", f"{year}-01", _typed_value(rng, "hrent", g)]]]
+    forced = rng.random() < 0.85
+    if forced:
+        for name in rng.sample(["hmax", "hnth"], rng.randint(1, 2)):
+            ops.append(["on", 0, ["calc", name, f"{year}-01"]])
+    ops.append(["clone", 0, False])
+    nsims = 2
+    if rng.random() < 0.3:
+        ops.append(["clone", 1, False])
+        nsims = 3
+    for i in range(nsims):
+        ops.append(["on", i, ["set", "rent", f"{year}-02", rents()]])
+    for i in rng.sample(range(nsims), nsims):
+        ops.append(["on", i, ["calc", "hnth", f"{year}-02"]])
+        ops.append(["on", i, ["calc", "hmax", f"{year}-02"]])
+        ops.append(["on", i, ["calc", "rent_share", f"{year}-01"]])
+    return {"kind": "typed", "flavour": "scale", "count": n, "ids": ids, "cfg": {"trace": False},
+            "lazy": not forced and rng.random() < 0.5, "ops": ops}
+
+
 def gen_typed_case(rng, k):
+    if k % 20 == 7:
+        return _scale_case(rng, k)
+    special = k % 4 == 1
+    _SPECIAL[0] = 0.35 if special else 0.0
+    try:
+        return _gen_typed_case(rng, k, special)
+    finally:
+        _SPECIAL[0] = 0.0
+
+
+def _flip_zeros(rng, a):
+    return [(-x if x == 0 and rng.random() < 0.7 else x) for x in a]
+
+
+def _gen_typed_case(rng, k, special):
     n = rng.randint(1, 4)
     g = rng.randint(1, min(3, n))
     ids = list(range(g)) + [rng.randrange(g) for _ in range(n - g)]     # every household has a member
@@ -771,6 +866,14 @@ def gen_typed_case(rng, k):
     ops = []
     # a populated original: inputs of every type, some months of the rule variables, often a result
     ops.append(["on", 0, ["set", "income", str(year), _typed_value(rng, "income", n)]])
+    if special:
+        # consecutive periods whose arrays are equal as numbers and differ in the sign of a zero
+        for name in rng.sample(["rent", "hrent", "salary"], rng.randint(1, 3)):
+            size = g if name in TYPED_GROUP else n
+            base = _typed_value(rng, name, size)
+            base[rng.randrange(size)] = rng.choice([0.0, -0.0])
+            for m in (1, 2, 3):
+                ops.append(["on", 0, ["set", name, f"{year}-{m:02d}", _flip_zeros(rng, base) if m > 1 else base]])
     for name in ("housing", "rent", "salary", "bonus", "hrent"):
         for m in sorted(rng.sample([1, 2, 3, 12], rng.randint(0, 2))):
             ops.append(["on", 0, ["set", name, f"{year}-{m:02d}", _typed_value(rng, name, g if name in TYPED_GROUP else n)]])
@@ -781,8 +884,11 @@ def gen_typed_case(rng, k):
         ops.append(["on", 0, rng.choice([["calc", "benefit", f"{year}-01"], ["calc", "total", str(year)],
                                           ["calc", "income", str(year)]])])
     if rng.random() < 0.7:
-        # the original reads group values through projectors BEFORE it is cloned
-        ops.append(["on", 0, ["calc", rng.choice(["rent_share", "rent_share", "peers"]), f"{year}-{rng.choice([1, 2]):02d}"]])
+        # the original reads group values through projectors / position-dependent primitives BEFORE it is cloned
+        ops.append(["on", 0, ["calc", rng.choice(["rent_share", "rent_share", "peers", "hnth", "hmax"]),
+                              f"{year}-{rng.choice([1, 2]):02d}"]])
+    if special and rng.random() < 0.6:
+        ops.append(["on", 0, ["calc", "signed", f"{year}-{rng.choice([1, 2, 3]):02d}"]])
     nsims = 1
     ops.append(["clone", 0, rng.random() < 0.3])
     nsims += 1
@@ -800,8 +906,11 @@ def gen_typed_case(rng, k):
     for i in rng.sample(range(nsims), nsims):
         ops.append(["on", i, ["delete", "rent_share", None]])
         ops.append(["on", i, ["calc", "rent_share", f"{year}-{m:02d}"]])
-        ops.append(["on", i, ["calc", rng.choice(["benefit", "peers"]), f"{year}-{m:02d}"]])
-    return {"kind": "typed", "count": n, "ids": ids, "cfg": cfg, "lazy": k % 3 == 2, "ops": ops}
+        ops.append(["on", i, ["calc", rng.choice(["benefit", "peers", "signed", "hnth"]), f"{year}-{m:02d}"]])
+        if special:
+            ops.append(["on", i, ["calc", "signed", f"{year}-{rng.choice([1, 2, 3]):02d}"]])
+    return {"kind": "typed", "flavour": "special" if special else "plain", "count": n, "ids": ids, "cfg": cfg,
+            "lazy": k % 3 == 2, "ops": ops}
 
 
 # ---------------------------------------------------------------------------------------
@@ -881,7 +990,7 @@ def classify(case, obs):
     cfg = case.get("cfg") or {}
     tags = ["disk" if cfg.get("disk") else "memory"]
     if case.get("kind") == "typed":
-        tags.append("typed")
+        tags.append("typed" if case.get("flavour", "plain") == "plain" else "typed-" + case["flavour"])
         if any(o[0] == "on" and o[2][0] == "setfrom" for o in case["ops"]):
             tags.append("cached-array-as-input")
     else:
